@@ -91,14 +91,6 @@ theorem toL_renderOK {sep : Char} {ac : Bool} (seg : Seg) (hwf : wfSeg ac seg = 
     · simp [toL, hm, RenderOK]
   all_goals simp [toL, RenderOK]
 
-theorem wfFromL_top {sep : Char} {ac mm : Bool} {l : LSeg} {r : List LSeg} (ht : l.isTop = true)
-    (h : wfFromL sep ac false (l :: r)) : wfFromL sep ac mm (l :: r) := by
-  obtain ⟨h1, _, h3⟩ := h
-  have hi : l.isInter = false := by cases l <;> simp_all [LSeg.isTop, LSeg.isInter]
-  have he : l.isEmptyColl = false := by cases l <;> simp_all [LSeg.isTop, LSeg.isEmptyColl]
-  refine ⟨h1, (fun h => by rw [hi] at h; cases h), ?_⟩
-  simpa [he] using h3
-
 theorem remarkFrom_length (sep : Char) : ∀ (ls : List LSeg) (a : Bool),
     (remarkFrom sep a ls).length = ls.length := by
   intro ls
@@ -111,8 +103,7 @@ theorem parseWith_nil (f s : Bool) : parseWith f s [] = .ok [] := by
 
 /-- everything about one written list `segs`, the unescaped reading `u` of its text in notation `f`,
 and the rendering `S` of `u` in notation `f'` -/
-theorem render_roundtrip (f f' : Bool) (segs : List Seg) (hwf : wfSegs segs = true)
-    (hx : f' = true → fslashExpressible segs = true) :
+theorem render_roundtrip (f f' : Bool) (segs : List Seg) (hwf : wfSegs segs = true) :
     let u := segs.map (keepEsc (sepOf f))
     let S := render f' u
     parseWith f' true S = .ok segs ∧ normOriginal S = S ∧
@@ -148,34 +139,20 @@ theorem render_roundtrip (f f' : Bool) (segs : List Seg) (hwf : wfSegs segs = tr
         simp only [wfFrom, Bool.and_eq_true] at hw
         simp only [List.map_cons, List.mem_cons] at hl
         rcases hl with rfl | hl
-        · exact (toL_flags _ s hw.1).2.2.2
+        · exact (toL_flags _ s hw.1).2.2
         · exact ih _ hw.2 l hl
     exact this segs false hwf
   let L' := remarkFrom (sepOf f') false L
-  have hW0 : wfFromL (sepOf f) false f' L := toL_wfFrom segs false f' hwf hx
+  have hW0 : wfFromL (sepOf f) false L := toL_wfFrom segs false hwf
   have hS : S = textAll f' L' := by
-    have := render_eq f' L false f' hW0 (fun l hl => (hok l hl).1)
+    have := render_eq f' L false hW0 (fun l hl => (hok l hl).1)
     rw [← hu] at this
     exact this
-  have hW1 : wfFromL (sepOf f') false f' L' :=
-    remarkFrom_wf L false f' false hW0 (fun l hl => (hok l hl).1) (fun _ => rfl)
+  have hW1 : wfFromL (sepOf f') false L' :=
+    remarkFrom_wf L false false hW0 (fun l hl => (hok l hl).1) (fun _ => rfl)
       (fun l hl => hnotop l (by
         simp only [Bool.false_eq_true, ↓reduceIte] at hl
         exact List.mem_of_mem_tail hl))
-  have hW2 : wfFromL (sepOf f') false (f' || (L'.head?.map LSeg.isTop).getD false) L' := by
-    cases hL' : L' with
-    | nil => trivial
-    | cons l r =>
-      rw [hL'] at hW1
-      by_cases ht : l.isTop = true
-      · apply wfFromL_top ht
-        cases f'
-        · exact hW1
-        · obtain ⟨h1, _, h3⟩ := hW1
-          have hi : l.isInter = false := by cases l <;> simp_all [LSeg.isTop, LSeg.isInter]
-          have he : l.isEmptyColl = false := by cases l <;> simp_all [LSeg.isTop, LSeg.isEmptyColl]
-          exact ⟨h1, fun _ => rfl, by simpa [he] using h3⟩
-      · simpa [ht] using hW1
   have hnb : normOriginal (textAll f' L') = textAll f' L' := by
     cases f' with
     | true => exact normOriginal_of_nonblank ⟨'/', by simp [textAll], by decide⟩
@@ -191,12 +168,12 @@ theorem render_roundtrip (f f' : Bool) (segs : List Seg) (hwf : wfSegs segs = tr
   have key : ∀ strip, parseWith f' strip S = .ok (L'.map (LSeg.seg strip)) := by
     intro strip
     rw [hS]
-    exact parseWith_texts f' strip L' (by rw [hsep]; exact hW2) hnb
+    exact parseWith_texts f' strip L' (by rw [hsep]; exact hW1) hnb
   refine ⟨?_, by rw [hS]; exact hnb, L'.map (LSeg.seg false), key false, ?_, ?_⟩
   · rw [key true, remarkFrom_seg_true]
     have := map_seg_toL (sep := sepOf f) true segs false hwf
     simpa [L] using this
-  · have := render_eq f' L' false f' hW1 (remarkFrom_ok _ L false (fun l hl => (hok l hl).1))
+  · have := render_eq f' L' false hW1 (remarkFrom_ok _ L false (fun l hl => (hok l hl).1))
     rw [this, hsep, remarkFrom_idem, hS]
   · simp [L', L, remarkFrom_length]
 
@@ -258,8 +235,7 @@ theorem normOriginal_append {t : Str} (x : Str) (hn : normOriginal t = t) (hne :
 /-- the text `append` builds for a written path and the canonical text of one more segment, read
 back without stripping the escapes -/
 theorem append_parse (f : Bool) (segs : List Seg) (sg : Seg) (hne : segs ≠ [])
-    (hwf : wfSegs (segs ++ [sg]) = true) (happ : appendable (lastIsColl false segs) sg = true)
-    (hx : f = true → fslashExpressible segs = true) :
+    (hwf : wfSegs (segs ++ [sg]) = true) (happ : appendable (lastIsColl false segs) sg = true) :
     let o1 := write f segs ++ sepOf f :: segText f sg
     normOriginal o1 = o1 ∧
     parseWith f false o1 = .ok (segs.map (keepEsc (sepOf f)) ++ [keepEsc (sepOf f) sg]) := by
@@ -299,20 +275,11 @@ theorem append_parse (f : Bool) (segs : List Seg) (sg : Seg) (hne : segs ≠ [])
       by_cases hm : m = .regex <;> simp [l, toL, hm] at hl
     all_goals simp [l, toL] at hl
   have hni : (remark1 (sepOf f) false l).isInter = false := by
-    rw [(remark1_flags _ _ l).2.1, hfl.2.1]
+    rw [(remark1_flags _ _ l).2, hfl.2.1]
     obtain ⟨ty, x⟩ := sg
     cases ty <;> cases x <;> try rfl
     case collector.collector e op => cases op <;> simp_all [appendable, isInterColl]
-  have htop : ((L.head?).map LSeg.isTop).getD false = false := by
-    cases hs : segs with
-    | nil => exact absurd hs hne
-    | cons s r =>
-      rw [hs] at hw
-      simp only [wfFrom, Bool.and_eq_true] at hw
-      simp [L, hs, (toL_flags _ s hw.1).2.2.2]
-  have hLw : wfFromL (if f then '/' else '.') false (f || ((L.head?).map LSeg.isTop).getD false) L := by
-    rw [htop, Bool.or_false]
-    exact toL_wfFrom segs false f hw' hx
+  have hLw : wfFromL (if f then '/' else '.') false L := toL_wfFrom segs false hw'
   have hT : textAll f L = write f segs := textAll_toL f segs hw'
   have hLne : L ≠ [] := by simpa [L] using hne
   have hwne : write f segs ≠ [] := by
